@@ -5,10 +5,13 @@ import AriadneModel.Driver.ArgWire
 import AriadneModel.Model.ResultAnn
 import AriadneModel.Model.ArgFindings
 import AriadneModel.Model.InputImports
+import AriadneModel.Spec.PydUnionLog
+import AriadneModel.Model.ClientImports
 
 open Lean (Json)
 open Ariadne Ariadne.Wire Ariadne.ArgWire Ariadne.Scalars Ariadne.ResultAnn Ariadne.PydLog Ariadne.ArgValues
 open Ariadne.ArgFindings
+open Ariadne.ResultUnion Ariadne.PydUnionLog
 
 def strs (xs : List String) : Json := .arr (xs.map Json.str).toArray
 
@@ -47,6 +50,76 @@ def optS : Option String → Json
   | some s => .str s
   | none => .null
 
+/-! annotations / shapes with unions (Model/ResultUnion.lean):
+    PAnn  {"k":"leaf","l":Leaf} | {"k":"literal","vs":[s]} | {"k":"optional","a":PAnn} | {"k":"list","a":PAnn}
+          | {"k":"model","fields":[[alias,PAnn]]} | {"k":"union"|"dunion","members":[[[alias,PAnn]]]}
+    RTU   {"k":"custom","scalar":s,"nn":b} | {"k":"plain","py":s,"nn":b} | {"k":"tag","vals":[s]}
+          | {"k":"list","item":RTU,"nn":b} | {"k":"obj","fields":[[key,RTU]],"nn":b} | {"k":"abs","members":[[[key,RTU]]],"nn":b} -/
+
+def strList (j : Json) (k : String) : Except String (List String) := do
+  (← arrOf j k).mapM fun x => x.getStr?
+
+mutual
+  partial def decPAnn (j : Json) : Except String PAnn := do
+    match ← fieldStr j "k" with
+    | "leaf" => pure (.leaf (← decLeaf (← field j "l")))
+    | "literal" => pure (.literal (← strList j "vs"))
+    | "optional" => pure (.optional (← decPAnn (← field j "a")))
+    | "list" => pure (.list (← decPAnn (← field j "a")))
+    | "model" => pure (.model (← decPFlds (← arrOf j "fields")))
+    | "union" => pure (.union (← decPMems (← arrOf j "members")))
+    | "dunion" => pure (.dunion (← decPMems (← arrOf j "members")))
+    | k => throw s!"PAnn kind {k}"
+  partial def decPFlds : List Json → Except String PFlds
+    | [] => pure .nil
+    | f :: rest => do
+      let pr ← f.getArr?
+      if h : pr.size = 2 then pure (.cons (← pr[0].getStr?) (← decPAnn pr[1]) (← decPFlds rest)) else throw "field pair"
+  partial def decPMems : List Json → Except String PMems
+    | [] => pure .nil
+    | m :: rest => do pure (.cons (← decPFlds (← m.getArr?).toList) (← decPMems rest))
+end
+
+mutual
+  partial def encPAnn : PAnn → Json
+    | .leaf l => Json.mkObj [("k", "leaf"), ("l", encLeaf l)]
+    | .literal vs => Json.mkObj [("k", "literal"), ("vs", strs vs)]
+    | .optional a => Json.mkObj [("k", "optional"), ("a", encPAnn a)]
+    | .list a => Json.mkObj [("k", "list"), ("a", encPAnn a)]
+    | .model fs => Json.mkObj [("k", "model"), ("fields", .arr (encPFlds fs).toArray)]
+    | .union ms => Json.mkObj [("k", "union"), ("members", .arr (encPMems ms).toArray)]
+    | .dunion ms => Json.mkObj [("k", "dunion"), ("members", .arr (encPMems ms).toArray)]
+  partial def encPFlds : PFlds → List Json
+    | .nil => []
+    | .cons k a rest => Json.arr #[.str k, encPAnn a] :: encPFlds rest
+  partial def encPMems : PMems → List Json
+    | .nil => []
+    | .cons fs rest => Json.arr (encPFlds fs).toArray :: encPMems rest
+end
+
+mutual
+  partial def decRTU (j : Json) : Except String RTU := do
+    match ← fieldStr j "k" with
+    | "custom" => pure (.custom (← fieldStr j "scalar") (← fieldBool j "nn"))
+    | "plain" => pure (.plain (← fieldStr j "py") (← fieldBool j "nn"))
+    | "tag" => pure (.tag (← strList j "vals"))
+    | "list" => pure (.list (← decRTU (← field j "item")) (← fieldBool j "nn"))
+    | "obj" => pure (.obj (← decFlds (← arrOf j "fields")) (← fieldBool j "nn"))
+    | "abs" => pure (.abs (← decMems (← arrOf j "members")) (← fieldBool j "nn"))
+    | k => throw s!"RTU kind {k}"
+  partial def decFlds : List Json → Except String Flds
+    | [] => pure .nil
+    | f :: rest => do
+      let pr ← f.getArr?
+      if h : pr.size = 2 then pure (.cons (← pr[0].getStr?) (← decRTU pr[1]) (← decFlds rest)) else throw "field pair"
+  partial def decMems : List Json → Except String Mems
+    | [] => pure .nil
+    | m :: rest => do pure (.cons (← decFlds (← m.getArr?).toList) (← decMems rest))
+end
+
+def encImports (is : List Import) : Json :=
+  .arr (is.map fun i => Json.mkObj [("module", i.module), ("names", strs i.names)]).toArray
+
 def handle (j : Json) : Except String Json := do
   let op ← fieldStr j "op"
   match op with
@@ -65,6 +138,44 @@ def handle (j : Json) : Except String Json := do
       pure (base.mergeObj (Json.mkObj [("conforms", conforms t v), ("occurrences", encParseCalls (occurrences cfg t v)),
         ("calls", encParseCalls (validateLog (fun _ _ => true) (annOfR cfg t) v).calls)]))
     | .error _ => pure base
+  | "validateU" =>
+    -- Spec.PydUnionLog on an annotation with (tagged / plain) unions of model classes
+    let ann ← decPAnn (← field j "ann")
+    let v ← fieldJ j "j"
+    let r := validateU (fun _ _ => true) ann v
+    pure (Json.mkObj [("calls", encParseCalls r.calls), ("ok", r.ok)])
+  | "resultAnnU" =>
+    -- the field annotation of a shape with abstract positions (+ raw annotation before the discriminator walk),
+    -- the scalar imports of the module, and on a response value: conformance, entitled calls, calls of the validation
+    let cfg ← decScalars j "scalars"
+    let t ← decRTU (← field j "shape")
+    let imps : Json := match resultImports cfg t with
+      | .ok is => Json.mkObj [("ok", encImports is)]
+      | .error sc => Json.mkObj [("error", "KeyError"), ("scalar", sc)]
+    let base := Json.mkObj [("ann", encPAnn (annField cfg t)), ("raw", encPAnn (rawAnn cfg t)),
+      ("usedScalars", strs (usedScalarsU cfg t)), ("imports", imps)]
+    match j.getObjVal? "j" with
+    | .ok w => do
+      let v ← dec w
+      pure (base.mergeObj (Json.mkObj [("conforms", conformsU t v), ("occurrences", encParseCalls (occurrencesU cfg t v)),
+        ("calls", encParseCalls (validateU (fun _ _ => true) (annField cfg t) v).calls)]))
+    | .error _ => pure base
+  | "clientImports" =>
+    -- ArgumentsGenerator.generate for every operation (one generator), then ClientGenerator.generate's scalar imports
+    let kinds ← (← arrOf j "kinds").mapM fun p => do
+      let pr ← p.getArr?
+      if h : pr.size = 2 then pure (← pr[0].getStr?, ← GqlWire.kind (← pr[1].getStr?)) else throw "kind pair"
+    let env : Arguments.Env := { kind := fun n => (kinds.find? (·.1 == n)).map (·.2), scalars := ← decScalars j "scalars",
+                                 snake := GqlWire.boolD j "snake" true }
+    let ops ← (← arrOf j "ops").mapM fun o => do
+      (← o.getArr?).toList.mapM fun d => do
+        pure ({ name := ← fieldStr d "name", type := ← GqlWire.typeRef (← field d "type") } : Arguments.VarDef)
+    match ClientImports.generateAll env ops {} with
+    | .error _ => pure (Json.mkObj [("error", "generation")])
+    | .ok st =>
+      match ClientImports.clientScalarImports env.scalars st.usedScalars with
+      | .ok is => pure (Json.mkObj [("usedScalars", strs st.usedScalars), ("imports", encImports is)])
+      | .error sc => pure (Json.mkObj [("error", "KeyError"), ("scalar", sc)])
   | "dump" =>
     let ann ← decNAnn (← field j "ann")
     let v ← decAV (← field j "v")
